@@ -385,6 +385,16 @@ def ob_su_history(seq):
             if not ok:
                 continue
             goals.append(Goal("[%s] reported response == sqrt(p) * unscaled taps of this transmission" % tag, _meq(taps, raw * s)))
+            # reading the report is an observation: asking again (and again) gives the same response, also through its dense form
+            first = np.array(taps, dtype=object, copy=True)
+            for again in (2, 3):
+                ir2 = it.call(it.getattr(su, "get_last_impulse_response"), [])
+                it.getattr(ir2, "tap_values")
+                t2 = it.getattr(ir2, "tap_values_sparse")
+                goals.append(Goal("[%s] read number %d of the reported response == the first read" % (tag, again),
+                                  np.shape(t2) == np.shape(first) and _meq(t2, first)))
+                goals.append(Goal("[%s] the response object handed out earlier still holds its values (read %d)" % (tag, again),
+                                  _meq(it.getattr(ir, "tap_values_sparse"), first)))
             if dom == "time":
                 spec = _conv_spec(x, raw, [0, 2], N) * s
             else:
